@@ -9,6 +9,8 @@
 //   kids are written in the declaration order of struct ASTNode; a vector field contributes one
 //   (fname node) pair per element, in order.  A null vector element is the pseudo node (9999 0 0).
 //   string-vector scalars are joined with '\n' (then encoded).
+//   an element of match_arms is the pseudo node (9998 ...) with scalars pattern_type / variant_name / bindings /
+//   enum_type_name and at most one child "body".
 //
 // Commands (one per stdin line):
 //   KEY <fname-enc> <n> <targ-enc>*           -> K <enc(generate_cache_key)>
@@ -149,14 +151,6 @@ static Scalars scalars_of(const ASTNode *n, bool all) {
     if (n->function_pointer_type.return_type != TYPE_UNKNOWN || !n->function_pointer_type.param_types.empty())
         out.push_back({"function_pointer_type", std::to_string((int)n->function_pointer_type.return_type) + "/" +
                                                     std::to_string(n->function_pointer_type.param_types.size())});
-    {
-        std::string s; bool any = false;
-        for (auto &a : n->match_arms) {
-            if (!a.variant_name.empty() || !a.bindings.empty() || !a.enum_type_name.empty()) any = true;
-            s += a.variant_name + "("; for (auto &b : a.bindings) s += b + ","; s += ")" + a.enum_type_name + ";";
-        }
-        if (any) out.push_back({"match_arms", s});
-    }
     if (!n->interface_bounds.empty()) out.push_back({"interface_bounds", std::to_string(n->interface_bounds.size())});
     if (n->foreign_module_decl) out.push_back({"foreign_module_decl", "set"});
     if (n->foreign_function_decl) out.push_back({"foreign_function_decl", "set"});
@@ -179,7 +173,19 @@ static void dump(const ASTNode *n, std::string &o) {
 #define XW(f) for (auto &c : n->f) kid(#f, c.get(), k, cnt, true);
     PTRS_A(XP) VECS_A(XW) PTRS_B(XP) VECS_B(XW) PTRS_C(XP) VECS_C(XW) PTRS_D(XP) VECS_D(XW)
     PTRS_E(XP) VECS_E(XW) PTRS_F(XP)
-    for (auto &a : n->match_arms) kid("match_arms", a.body.get(), k, cnt, true);
+    for (auto &a : n->match_arms) {
+        // a MatchArm is written as a pseudo node of kind 9998: its own members as scalars, its body as child "body"
+        MatchArm da;
+        std::vector<std::pair<std::string, std::string>> as;
+        if (a.pattern_type != da.pattern_type) as.push_back({"pattern_type", std::to_string((int)a.pattern_type)});
+        if (!a.variant_name.empty()) as.push_back({"variant_name", a.variant_name});
+        if (!a.bindings.empty()) as.push_back({"bindings", joinv(a.bindings)});
+        if (!a.enum_type_name.empty()) as.push_back({"enum_type_name", a.enum_type_name});
+        k += " match_arms ( 9998 " + std::to_string(as.size());
+        for (auto &p : as) k += " " + p.first + " " + enc(p.second);
+        if (a.body) { k += " 1 body "; dump(a.body.get(), k); k += " )"; } else k += " 0 )";
+        cnt++;
+    }
     PTRS_G(XP) VECS_G(XW) PTRS_H(XP)
 #undef XP
 #undef XW
@@ -219,7 +225,16 @@ static std::unique_ptr<ASTNode> load(Toks &tk) {
     long ns = tk.num();
     std::unique_ptr<ASTNode> n;
     if (kind != 9999) n = std::make_unique<ASTNode>(static_cast<ASTNodeType>(kind));
-    for (long i = 0; i < ns; i++) { std::string f = tk.next(); std::string v = dec(tk.next()); if (n) set_scalar(n.get(), f, v); }
+    for (long i = 0; i < ns; i++) {
+        std::string f = tk.next(); std::string v = dec(tk.next());
+        if (!n) continue;
+        if (kind == 9998) {   // MatchArm pseudo node: park its members until the parent builds the arm
+            if (f == "variant_name") n->name = v; else if (f == "bindings") n->str_value = v;
+            else if (f == "enum_type_name") n->type_name = v; else if (f == "pattern_type") n->int_value = std::strtoll(v.c_str(), nullptr, 10);
+            continue;
+        }
+        set_scalar(n.get(), f, v);
+    }
     long nk = tk.num();
     for (long i = 0; i < nk; i++) {
         std::string f = tk.next();
@@ -232,7 +247,17 @@ static std::unique_ptr<ASTNode> load(Toks &tk) {
         PTRS_E(XP) VECS_E(XW) PTRS_F(XP) PTRS_G(XP) VECS_G(XW) PTRS_H(XP)
 #undef XP
 #undef XW
-        if (!done && f == "match_arms") { MatchArm a; a.body = std::move(c); n->match_arms.push_back(std::move(a)); done = true; }
+        if (!done && f == "match_arms") {
+            MatchArm a;
+            if (c && (long)c->node_type == 9998) {
+                a.variant_name = c->name; a.bindings = splitv(c->str_value); a.enum_type_name = c->type_name;
+                a.pattern_type = static_cast<PatternType>(c->int_value);
+                a.body = std::move(c->body);
+            } else {
+                a.body = std::move(c);
+            }
+            n->match_arms.push_back(std::move(a)); done = true;
+        }
         if (!done) throw std::runtime_error("protocol: unknown child field " + f);
     }
     if (tk.next() != ")") throw std::runtime_error("protocol: expected )");
